@@ -18,6 +18,7 @@ echo "== demo without patch (expected to pass)"
 ( eval "CARGO_TARGET_DIR=$T $DEMO" 2>&1 | grep -E "^test .*(ok|FAILED)|^test result|^error" | head -12 )
 cd /verif
 git -C /repo worktree remove --force $W
+[ -n "$NOCHECK" ] && exit 0
 echo "== checks against /repo + patch"
 git -C /repo apply $P || exit 3
 if [ "$PROPS" = "all" ]; then ./check all 2>&1 | grep -v "^      witness" | grep -E "new=[1-9]|^\s+\[|BUILD" | cut -c1-330; else for p in $PROPS; do ./check $p 2>&1 | grep -v "^      witness" | grep -E "new=|^\s+\[" | cut -c1-330; done; fi
